@@ -100,6 +100,27 @@ def clauses(w, label, mass_from_layers):
     return bad
 
 
+def access_paths(w):
+    """the same layers reached through every public lookup path: list, name table, find_layer, attribute"""
+    bad = []
+    for i, L in enumerate(w.layers):
+        nm = L.name
+        paths = {"layers_by_name": None, "find_layer": None, "attribute": None}
+        try:
+            paths["layers_by_name"] = w.layers_by_name[nm]
+        except Exception as ex:
+            paths["layers_by_name"] = "raised %s" % type(ex).__name__
+        try:
+            paths["find_layer"] = w.find_layer(nm)
+        except Exception as ex:
+            paths["find_layer"] = "raised %s" % type(ex).__name__
+        paths["attribute"] = getattr(w, nm, None)
+        for k, v in paths.items():
+            if v is not L:
+                bad.append("%s[%r] is not the world's own layer %d (it is %r of world %r)" % (k, nm, i, v, getattr(getattr(v, "world", None), "name", None)))
+    return bad
+
+
 def geometry(w):
     return {"radius": w.radius, "layers": [{"radius": L.radius, "inner": L.radius_inner, "thickness": L.thickness,
                                             "volume": L.volume, "mass": L.mass} for L in w.layers],
@@ -243,6 +264,29 @@ def check_chain(chain, base_name):
             out.append({"clause": "inputs_unmutated", "detail": "%s changed the caller's new_config" % label})
         if geometry(w) != g0:
             out.append({"clause": "inputs_unmutated", "detail": "%s changed the parent world's geometry" % label})
+        for msg in access_paths(w)[:2]:
+            out.append({"clause": "inputs_unmutated", "detail": "%s: parent world afterwards: %s" % (label, msg)})
+        for msg in access_paths(w2)[:2]:
+            out.append({"clause": "layer_lookup", "detail": "%s: derived world: %s" % (label, msg)})
+        # the same derivation from the same parent a second time (fan-out) gives the same geometry
+        if not out and step % 2 == 0:
+            try:
+                kw2 = dict(kwargs)
+                if "new_name" in kw2 and nm == "fresh":
+                    kw2["new_name"] = fresh + "b"
+                if kind == "from":
+                    w3 = with_alarm(20, build_from_world, w, copy.deepcopy(nc0), **kw2)
+                else:
+                    w3 = with_alarm(20, scale_from_world, w, radius_scale=k[0] / k[1], **kw2)
+                g2, g3 = geometry(w2), geometry(w3)
+                if json.dumps(g2, sort_keys=True, default=str) != json.dumps(g3, sort_keys=True, default=str):
+                    out.append({"clause": "derive_repeatable", "detail": "%s: deriving twice from the same parent gives different geometry: %r vs %r" % (
+                        label, [L["radius"] for L in g2["layers"]], [L["radius"] for L in g3["layers"]])})
+            except Hang:
+                out.append({"clause": "terminates", "detail": "%s (second derivation from the same parent) did not return within 20 s" % label,
+                            "parent_name_shape": "variant_numbered" if "_variant_" in old_name else "other"})
+            except Exception as ex:
+                out.append({"clause": "derive_raises", "detail": "%s (second derivation from the same parent): %s: %s" % (label, type(ex).__name__, str(ex)[:200])})
         if copy.deepcopy(get_world_configs().get(base_name)) != known_before:
             out.append({"clause": "inputs_unmutated", "detail": "%s changed the shipped configuration table entry %s" % (label, base_name)})
         out += scaled_ok(g_first, geometry(w2), sc[0] / sc[1], label + " total scale %d/%d" % tuple(sc))
